@@ -558,14 +558,22 @@ fn add_ids(mathml: Element) -> Element {
     let time_part = radix_fmt::radix(time, 36).to_string();
     let random_part = radix_fmt::radix(rand::random::<usize>(), 36).to_string();
     let prefix = "M".to_string() + &time_part[time_part.len() - 3..] + &random_part[random_part.len() - 4..] + "-"; // begin with letter
-    add_ids_to_all(mathml, &prefix, 0);
+    let mut ids_in_use = std::collections::HashSet::new();
+    add_ids_to_all(mathml, &prefix, 0, &mut ids_in_use);
     return mathml;
 
-    fn add_ids_to_all(mathml: Element, id_prefix: &str, count: usize) -> usize {
+    fn add_ids_to_all(mathml: Element, id_prefix: &str, count: usize, ids_in_use: &mut std::collections::HashSet<String>) -> usize {
         let mut count = count;
-        if mathml.attribute("id").is_none() {
-            mathml.set_attribute_value("id", (id_prefix.to_string() + &count.to_string()).as_str());
+        // ids must be unique: an element without an id, or whose (author supplied) id was already seen, gets a new one
+        let needs_id = match mathml.attribute_value("id") {
+            None => true,
+            Some(id) => !ids_in_use.insert(id.to_string()),
+        };
+        if needs_id {
+            let new_id = id_prefix.to_string() + &count.to_string();
+            mathml.set_attribute_value("id", new_id.as_str());
             mathml.set_attribute_value("data-id-added", "true");
+            ids_in_use.insert(new_id);
             count += 1;
         };
 
@@ -575,7 +583,7 @@ fn add_ids(mathml: Element) -> Element {
 
         for child in mathml.children() {
             let child = as_element(child);
-            count = add_ids_to_all(child, id_prefix, count);
+            count = add_ids_to_all(child, id_prefix, count, ids_in_use);
         }
         return count;
     }
